@@ -81,7 +81,10 @@ Inductive lexp :=
    whitespace, the last one may be followed by whitespace (wl); the arguments are rendered tight *)
 | LCall (w1 : bool) (f : str) (args : list lexp) (wl w2 : bool)
 (* "[" w1 e1 WS ... WS en wl "]" w2 : an array literal (elements on one line, separated by whitespace, rendered tight) *)
-| LArr (w1 : bool) (elems : list lexp) (wl w2 : bool).
+| LArr (w1 : bool) (elems : list lexp) (wl w2 : bool)
+(* "{" w1 k1 ":" c1 v1 WS ... WS kn ":" cn vn wl "}" w2 : a map literal on one line; a pair is
+   (key, whitespace after the colon, value); values are rendered tight *)
+| LMap (w1 : bool) (pairs : list (str * bool * lexp)) (wl w2 : bool).
 
 (* generic helpers for the argument / element lists nested in lexp *)
 Definition allP {A} (P : A -> Prop) : list A -> Prop :=
@@ -105,6 +108,7 @@ Section LexpInd.
   Hypothesis H_assert : forall e w1 t w2 w3, P e -> P (LAssert e w1 t w2 w3).
   Hypothesis H_call : forall w1 f args wl w2, Forall P args -> P (LCall w1 f args wl w2).
   Hypothesis H_arr : forall w1 elems wl w2, Forall P elems -> P (LArr w1 elems wl w2).
+  Hypothesis H_map : forall w1 pairs wl w2, Forall (fun p => P (snd p)) pairs -> P (LMap w1 pairs wl w2).
   Fixpoint lexp_ind' (l : lexp) : P l :=
     match l with
     | LAtom a ws => H_atom a ws
@@ -126,6 +130,13 @@ Section LexpInd.
         H_arr w1 elems wl w2
           ((fix go (l : list lexp) : Forall P l :=
               match l with [] => Forall_nil P | a :: t => Forall_cons a (lexp_ind' a) (go t) end) elems)
+    | LMap w1 pairs wl w2 =>
+        H_map w1 pairs wl w2
+          ((fix go (l : list (str * bool * lexp)) : Forall (fun p => P (snd p)) l :=
+              match l with
+              | [] => Forall_nil _
+              | p :: t => Forall_cons (P := fun p => P (snd p)) p (match p with (_, v) => lexp_ind' v end) (go t)
+              end) pairs)
     end.
 End LexpInd.
 
@@ -146,7 +157,8 @@ Definition toprank (l : lexp) : nat :=
                | E_prim "[" [E_0] ":" [E_0] "]"       (Lay_slice)
                | E_prim "." ident | E_prim ".(" type ")"   (Lay_dot, Lay_assert)
                | "(" fname E_0 ... E_0 ")"                (Lay_call; arguments separated by whitespace)
-               | "[" E_0 ... E_0 "]"                      (Lay_arr; elements separated by whitespace) *)
+               | "[" E_0 ... E_0 "]"                      (Lay_arr; elements separated by whitespace)
+               | "{" ident ":" E_0 ... ident ":" E_0 "}"  (Lay_map; pairs separated by whitespace) *)
 Inductive Lay : nat -> lexp -> Prop :=
 | Lay_up n l : Lay (S n) l -> Lay n l
 | Lay_bin o l ws r : Lay (rank o) l -> Lay (S (rank o)) r -> Lay (rank o) (LBin o l ws r)
@@ -160,7 +172,8 @@ Inductive Lay : nat -> lexp -> Prop :=
 | Lay_dot e k w : Lay rank_primary e -> Lay rank_primary (LDot e k w)
 | Lay_assert e w1 t w2 w3 : Lay rank_primary e -> Lay rank_primary (LAssert e w1 t w2 w3)
 | Lay_call w1 f args wl w2 : (forall a, In a args -> Lay 0 a) -> Lay rank_primary (LCall w1 f args wl w2)
-| Lay_arr w1 elems wl w2 : (forall a, In a elems -> Lay 0 a) -> Lay rank_primary (LArr w1 elems wl w2).
+| Lay_arr w1 elems wl w2 : (forall a, In a elems -> Lay 0 a) -> Lay rank_primary (LArr w1 elems wl w2)
+| Lay_map w1 pairs wl w2 : (forall p, In p pairs -> Lay 0 (snd p)) -> Lay rank_primary (LMap w1 pairs wl w2).
 
 (* the tree the grammar prescribes *)
 Fixpoint tree_of (l : lexp) : tree :=
@@ -177,13 +190,14 @@ Fixpoint tree_of (l : lexp) : tree :=
   | LAssert e _ t _ _ => TAssert (tree_of e) (Some t)
   | LCall _ f args _ _ => TGroup (TCall f (map tree_of args))     (* parseGroupedExpr wraps the call *)
   | LArr _ elems _ _ => TArr (map tree_of elems)
+  | LMap _ pairs _ _ => TMap (map (fun p => match p with (k, _, v) => (k, tree_of v) end) pairs)
   end.
 
 (* derivations without layout *)
 Inductive sexp :=
 | SAtom (a : atom) | SGroup (e : sexp) | SUn (o : unop) (e : sexp) | SBin (o : binop) (l r : sexp)
 | SIndex (e i : sexp) | SSlice (e : sexp) (s t : option sexp) | SDot (e : sexp) (k : str) | SAssert (e : sexp) (t : ty)
-| SCall (f : str) (args : list sexp) | SArr (elems : list sexp).
+| SCall (f : str) (args : list sexp) | SArr (elems : list sexp) | SMap (pairs : list (str * sexp)).
 Fixpoint erase (l : lexp) : sexp :=
   match l with
   | LAtom a _ => SAtom a
@@ -198,6 +212,7 @@ Fixpoint erase (l : lexp) : sexp :=
   | LAssert e _ t _ _ => SAssert (erase e) t
   | LCall _ f args _ _ => SCall f (map erase args)
   | LArr _ elems _ _ => SArr (map erase elems)
+  | LMap _ pairs _ _ => SMap (map (fun p => match p with (k, _, v) => (k, erase v) end) pairs)
   end.
 Fixpoint stree (s : sexp) : tree :=
   match s with
@@ -213,6 +228,7 @@ Fixpoint stree (s : sexp) : tree :=
   | SAssert e t => TAssert (stree e) (Some t)
   | SCall f args => TGroup (TCall f (map stree args))
   | SArr elems => TArr (map stree elems)
+  | SMap pairs => TMap (map (fun p => match p with (k, v) => (k, stree v) end) pairs)
   end.
 
 (* token rendering; one WS token stands for any run of blanks (the lexer merges them) *)
@@ -237,6 +253,19 @@ Proof. reflexivity. Qed.
 Lemma allP_In {A} (P : A -> Prop) l : (forall a, In a l -> P a) -> allP P l.
 Proof. induction l as [|a t IH]; simpl; intro H; [exact I|]. split; [apply H; auto|apply IH; intros b Hb; apply H; auto]. Qed.
 Arguments render_seq r args wl : simpl never.
+(* the pairs of a map literal *)
+Definition render_pairs (r : lexp -> list token) : list (str * bool * lexp) -> bool -> list token :=
+  fix go (ps : list (str * bool * lexp)) (wl : bool) : list token :=
+    match ps with
+    | [] => []
+    | (k, wc, v) :: t => ident_tok k :: mk T_COLON :: wsl wc ++ r v ++ wsl (seq_flag t wl) ++ go t wl
+    end.
+Lemma render_pairs_nil r wl : render_pairs r [] wl = [].
+Proof. reflexivity. Qed.
+Lemma render_pairs_cons r k wc v t wl :
+  render_pairs r ((k, wc, v) :: t) wl = ident_tok k :: mk T_COLON :: wsl wc ++ r v ++ wsl (seq_flag t wl) ++ render_pairs r t wl.
+Proof. reflexivity. Qed.
+Arguments render_pairs r ps wl : simpl never.
 Fixpoint render (l : lexp) : list token :=
   match l with
   | LAtom a ws => atom_tok a :: wsl ws
@@ -253,6 +282,8 @@ Fixpoint render (l : lexp) : list token :=
       mk T_LPAREN :: wsl w1 ++ ident_tok f :: wsl (seq_flag args wl) ++ render_seq render args wl ++ mk T_RPAREN :: wsl w2
   | LArr w1 elems wl w2 =>
       mk T_LBRACKET :: wsl w1 ++ render_seq render elems wl ++ mk T_RBRACKET :: wsl w2
+  | LMap w1 pairs wl w2 =>
+      mk T_LCURLY :: wsl w1 ++ render_pairs render pairs wl ++ mk T_RCURLY :: wsl w2
   end.
 
 (* is the last token of l followed by whitespace *)
@@ -268,6 +299,7 @@ Fixpoint last_ws (l : lexp) : bool :=
   | LAssert _ _ _ _ w3 => w3
   | LCall _ _ _ _ w2 => w2
   | LArr _ _ _ w2 => w2
+  | LMap _ _ _ w2 => w2
   end.
 
 (* layouts legal in a whitespace-sensitive ("tight") context: no whitespace
@@ -284,6 +316,7 @@ Fixpoint tight_ok (l : lexp) : bool :=
   | LAssert e _ _ _ w3 => negb w3 && tight_ok e
   | LCall _ _ _ _ w2 => negb w2
   | LArr _ _ _ w2 => negb w2      (* whitespace just inside the brackets is legal everywhere *)
+  | LMap _ _ _ w2 => negb w2
   end.
 
 (* layouts legal in every context: no whitespace before "[" and around "." (rules 1, 2) *)
@@ -301,6 +334,7 @@ Fixpoint layout_ok (l : lexp) : bool :=
   | LAssert e _ _ _ _ => negb (last_ws e) && layout_ok e
   | LCall _ _ args _ _ => forallb (fun a => layout_ok a && tight_ok a) args
   | LArr _ elems _ _ => forallb (fun a => layout_ok a && tight_ok a) elems
+  | LMap _ pairs _ _ => forallb (fun p => layout_ok (snd p) && tight_ok (snd p)) pairs
   end.
 
 
@@ -324,6 +358,20 @@ Definition args_ok (E : env) (ok : lexp -> Prop) (wl : bool) : list lexp -> Prop
     | a :: t => (ok a /\ (e_fix_slice E = false -> ends_with_slice a = true -> seq_flag t wl = false)) /\ go t
     end.
 
+Definition pairs_ok (E : env) (ok : lexp -> Prop) (wl : bool) : list (str * bool * lexp) -> Prop :=
+  fix go (l : list (str * bool * lexp)) : Prop :=
+    match l with
+    | [] => True
+    | p :: t => (ok (snd p) /\ (e_fix_slice E = false -> ends_with_slice (snd p) = true -> seq_flag t wl = false)) /\ go t
+    end.
+(* parseMapPairs rejects a key that occurred before *)
+Fixpoint keys_fresh (seen : list str) (ks : list str) : Prop :=
+  match ks with
+  | [] => True
+  | k :: t => existsb (fun k' => str_eqb k' k) seen = false /\ keys_fresh (k :: seen) t
+  end.
+Definition pair_key (p : str * bool * lexp) : str := fst (fst p).
+
 Fixpoint atoms_ok (E : env) (l : lexp) : Prop :=
   match l with
   | LAtom (ANum lit) _ => num_lit_ok lit = true
@@ -343,6 +391,7 @@ Fixpoint atoms_ok (E : env) (l : lexp) : Prop :=
          written (e_fix_slice = false) an argument ending in a slice must not be followed by whitespace *)
       func_of E f = Some false /\ arity_wrong E f (List.length args) = false /\ args_ok E (atoms_ok E) wl args
   | LArr _ elems wl _ => args_ok E (atoms_ok E) wl elems
+  | LMap _ pairs wl _ => keys_fresh [] (map pair_key pairs) /\ pairs_ok E (atoms_ok E) wl pairs
   end.
 
 (* ================================================================ *)
@@ -423,6 +472,8 @@ Lemma rparen_lowest : precedences T_RPAREN = lowestPrec.
 Proof. reflexivity. Qed.
 Lemma rbracket_lowest : precedences T_RBRACKET = lowestPrec.
 Proof. reflexivity. Qed.
+Lemma rcurly_lowest : precedences T_RCURLY = lowestPrec.
+Proof. reflexivity. Qed.
 Lemma colon_lowest : precedences T_COLON = lowestPrec.
 Proof. reflexivity. Qed.
 Lemma dot_index : precedences T_DOT = precedences T_LBRACKET.
@@ -453,6 +504,20 @@ Lemma consume_args_cons c a t st :
 Proof. reflexivity. Qed.
 Arguments consume_args c args st : simpl never.
 
+(* parseMapPairs: key with advance, ":" with advance, the value with parseExprWSS, parseMulitlineWS *)
+Definition consume_pairs (c : lexp -> pstate -> pstate) : list (str * bool * lexp) -> pstate -> pstate :=
+  fix go (ps : list (str * bool * lexp)) (st : pstate) : pstate :=
+    match ps with
+    | [] => st
+    | p :: t => go t (advance_if_ws (pop_wss (c (snd p) (push_wss true (advance (advance st))))))
+    end.
+Lemma consume_pairs_nil c st : consume_pairs c [] st = st.
+Proof. reflexivity. Qed.
+Lemma consume_pairs_cons c p t st :
+  consume_pairs c (p :: t) st = consume_pairs c t (advance_if_ws (pop_wss (c (snd p) (push_wss true (advance (advance st)))))).
+Proof. reflexivity. Qed.
+Arguments consume_pairs c ps st : simpl never.
+
 Fixpoint consume (E : env) (l : lexp) (st : pstate) : pstate :=
   match l with
   | LAtom a _ => atom_mark a (advance st)
@@ -474,6 +539,8 @@ Fixpoint consume (E : env) (l : lexp) (st : pstate) : pstate :=
   | LArr _ elems _ _ =>
       (* "[" with advance, parseMulitlineWS, the elements (parseExprWSS + parseMulitlineWS each), "]" with advance *)
       advance (consume_args (consume E) elems (advance_if_ws (advance st)))
+  | LMap _ pairs _ _ =>
+      pop_wss (advance_wss (consume_pairs (consume E) pairs (advance_if_ws (advance (push_wss false st)))))
   end.
 
 Fixpoint first_tok (l : lexp) : token :=
@@ -488,6 +555,7 @@ Fixpoint first_tok (l : lexp) : token :=
   | LAssert e _ _ _ _ => first_tok e
   | LCall _ _ _ _ _ => mk T_LPAREN
   | LArr _ _ _ _ => mk T_LBRACKET
+  | LMap _ _ _ _ => mk T_LCURLY
   end.
 
 Lemma atom_tok_not_ws a : is_ws (atom_tok a) = false.
@@ -495,7 +563,7 @@ Proof. destruct a as [| |[]|]; reflexivity. Qed.
 
 Lemma render_first l : exists r, render l = first_tok l :: r.
 Proof.
-  induction l as [a ws|w1 e w2 IH|o e IH|o a ws b IHa IHb|e w1 i w2 IHe IHi|e w1 s w2 t w3 IHe IHs IHt|e k w IHe|e w1 t w2 w3 IHe|w1 f args wz w2 IHargs|w1 args wz w2 IHargs]
+  induction l as [a ws|w1 e w2 IH|o e IH|o a ws b IHa IHb|e w1 i w2 IHe IHi|e w1 s w2 t w3 IHe IHs IHt|e k w IHe|e w1 t w2 w3 IHe|w1 f args wz w2 IHargs|w1 args wz w2 IHargs|w1 pairs wz w2 IHpairs]
     using lexp_ind'; simpl; eauto;
   destruct IHe as [r ->] || destruct IHa as [r ->]; simpl; eauto.
 Qed.
@@ -503,22 +571,23 @@ Qed.
 (* the first token of an expression is one of the eight prefix tokens *)
 Definition prefix_tt (t : toktype) : Prop :=
   t = T_NUM_LIT \/ t = T_STRING_LIT \/ t = T_TRUE \/ t = T_FALSE \/ t = T_IDENT \/ t = T_LPAREN \/ t = T_MINUS \/ t = T_BANG \/
-  t = T_LBRACKET.
+  t = T_LBRACKET \/ t = T_LCURLY.
 
 Lemma first_tok_prefix l : prefix_tt (ttype (first_tok l)).
 Proof.
   unfold prefix_tt.
-  induction l as [a ws|w1 e w2 IH|o e IH|o a ws b IHa IHb|e w1 i w2 IHe IHi|e w1 s w2 t w3 IHe IHs IHt|e k w IHe|e w1 t w2 w3 IHe|w1 f args wz w2 IHargs|w1 args wz w2 IHargs]
+  induction l as [a ws|w1 e w2 IH|o e IH|o a ws b IHa IHb|e w1 i w2 IHe IHi|e w1 s w2 t w3 IHe IHs IHt|e k w IHe|e w1 t w2 w3 IHe|w1 f args wz w2 IHargs|w1 args wz w2 IHargs|w1 pairs wz w2 IHpairs]
     using lexp_ind'; simpl; auto.
   - destruct a as [| |[]|]; simpl; tauto.
   - tauto.
   - destruct o; simpl; tauto.
   - tauto.
   - tauto.
+  - tauto.
 Qed.
 
 Lemma first_tok_not_ws l : is_ws (first_tok l) = false.
-Proof. unfold is_ws. destruct (first_tok_prefix l) as [H|[H|[H|[H|[H|[H|[H|[H|H]]]]]]]]; rewrite H; reflexivity. Qed.
+Proof. unfold is_ws. destruct (first_tok_prefix l) as [H|[H|[H|[H|[H|[H|[H|[H|[H|H]]]]]]]]]; rewrite H; reflexivity. Qed.
 
 Lemma render_head_not_ws l r : is_ws (look0 (render l ++ r)) = false.
 Proof. destruct (render_first l) as [x ->]. simpl. apply first_tok_not_ws. Qed.
@@ -581,7 +650,7 @@ Proof. rewrite <- app_assoc. reflexivity. Qed.
 
 Lemma tight_ok_last_ws l : tight_ok l = true -> last_ws l = false.
 Proof.
-  induction l as [a ws|w1 e w2 IH|o e IH|o a ws b IHa IHb|e w1 i w2 IHe IHi|e w1 s w2 t w3 IHe IHs IHt|e k w IHe|e w1 t w2 w3 IHe|w1 f args wz w2 IHargs|w1 args wz w2 IHargs]
+  induction l as [a ws|w1 e w2 IH|o e IH|o a ws b IHa IHb|e w1 i w2 IHe IHi|e w1 s w2 t w3 IHe IHs IHt|e k w IHe|e w1 t w2 w3 IHe|w1 f args wz w2 IHargs|w1 args wz w2 IHargs|w1 pairs wz w2 IHpairs]
     using lexp_ind'; simpl; intro Ht; auto;
     repeat (apply andb_true_iff in Ht; destruct Ht as [Ht ?]); auto;
     match goal with |- ?b = false => destruct b; simpl in *; congruence end.
@@ -718,9 +787,54 @@ Proof.
     rewrite A2, B2, C2, B, C. auto.
 Qed.
 
+Lemma render_pairs_head_not_ws ps wz r :
+  is_ws (look0 r) = false -> is_ws (look0 (render_pairs render ps wz ++ r)) = false.
+Proof.
+  intro H. destruct ps as [|[[k wc] v] t]; [rewrite render_pairs_nil; exact H|]. rewrite render_pairs_cons. reflexivity.
+Qed.
+
+(* one pair of a map literal, in the free context of the braces *)
+Lemma pair_step E v : consume_stmt E v -> forall st k wc w rest1,
+  rest st = ident_tok k :: mk T_COLON :: wsl wc ++ render v ++ wsl w ++ rest1 ->
+  is_wss st = false -> is_ws (look0 rest1) = false ->
+  layout_ok v = true -> tight_ok v = true ->
+  (e_fix_slice E = false -> ends_with_slice v = true -> w = false) -> atoms_ok E v ->
+  rest (advance (advance st)) = render v ++ wsl w ++ rest1 /\
+  rest (advance st) = mk T_COLON :: wsl wc ++ render v ++ wsl w ++ rest1 /\
+  rest (advance_if_ws (pop_wss (consume E v (push_wss true (advance (advance st)))))) = rest1 /\
+  wss (advance_if_ws (pop_wss (consume E v (push_wss true (advance (advance st)))))) = wss st /\
+  errs (advance_if_ws (pop_wss (consume E v (push_wss true (advance (advance st)))))) = errs st.
+Proof.
+  intros IH st k wc w rest1 Hr Hs Hn Hl Ht Hg Ha.
+  destruct (advance_tok st (ident_tok k) false (mk T_COLON :: wsl wc ++ render v ++ wsl w ++ rest1) Hr) as (A1 & B1 & C1 & _); auto.
+  destruct (advance_tok (advance st) (mk T_COLON) wc (render v ++ wsl w ++ rest1) A1) as (A2 & B2 & C2 & _).
+  { rewrite (is_wss_eq _ _ B1), Hs. discriminate. } { intros _. apply render_head_not_ws. }
+  destruct (arg_step E v IH (advance (advance st)) w rest1 A2 Hn Hl Ht Hg Ha) as (_ & _ & A & B & C).
+  rewrite A, B, C, B2, C2, B1, C1. auto 10.
+Qed.
+
+Lemma consume_pairs_spec E ok ps : Forall (fun p => consume_stmt E (snd p)) ps -> forall st wz rest0,
+  rest st = render_pairs render ps wz ++ rest0 -> is_wss st = false -> is_ws (look0 rest0) = false ->
+  forallb (fun p => layout_ok (snd p) && tight_ok (snd p)) ps = true ->
+  pairs_ok E ok wz ps -> (forall a, ok a -> atoms_ok E a) ->
+  rest (consume_pairs (consume E) ps st) = rest0 /\
+  wss (consume_pairs (consume E) ps st) = wss st /\ errs (consume_pairs (consume E) ps st) = errs st.
+Proof.
+  induction 1 as [|[[k wc] v] t Hv Ht IH]; intros st wz rest0 Hr Hs Hn Hl Hg Hok.
+  - rewrite consume_pairs_nil. rewrite render_pairs_nil in Hr. auto.
+  - rewrite render_pairs_cons in Hr. norm_app Hr. rewrite consume_pairs_cons. cbn [snd] in *.
+    simpl in Hl. apply andb_true_iff in Hl as [Hla Hlt]. apply andb_true_iff in Hla as [Hla Hta].
+    destruct Hg as [[Hoa Hga] Hgt]. cbn [snd] in Hoa, Hga.
+    destruct (pair_step E v Hv st k wc (seq_flag t wz) (render_pairs render t wz ++ rest0) Hr Hs) as (_ & _ & A & B & C); auto.
+    { apply render_pairs_head_not_ws. exact Hn. }
+    destruct (IH _ wz rest0 A) as (A2 & B2 & C2); auto.
+    { unfold is_wss. rewrite B. exact Hs. }
+    rewrite A2, B2, C2, B, C. auto.
+Qed.
+
 Lemma consume_spec E : forall l, consume_stmt E l.
 Proof.
-  induction l as [a ws|w1 e w2 IH|o e IH|o a ws b IHa IHb|e w1 i w2 IHe IHi|e w1 s w2 t w3 IHe IHs IHt|e k w IHe|e w1 t w2 w3 IHe|w1 f args wz w2 IHargs|w1 args wz w2 IHargs]
+  induction l as [a ws|w1 e w2 IH|o e IH|o a ws b IHa IHb|e w1 i w2 IHe IHi|e w1 s w2 t w3 IHe IHs IHt|e k w IHe|e w1 t w2 w3 IHe|w1 f args wz w2 IHargs|w1 args wz w2 IHargs|w1 pairs wz w2 IHpairs]
     using lexp_ind'; intros st rest0 Hr Hl Ht Hf Hg Hat; unfold after; cbn [consume last_ws]; simpl in Hr, Hl, Hat.
   - (* atom *)
     destruct (advance_tok st (atom_tok a) ws rest0) as (A & B & C & D & P); auto.
@@ -924,6 +1038,25 @@ Proof.
     { rewrite (is_wss_eq _ _ B2), (is_wss_eq _ _ B1). intro W. specialize (Ht W). simpl in Ht. destruct w2; [discriminate|reflexivity]. }
     { rewrite (is_wss_eq _ _ B2), (is_wss_eq _ _ B1). exact Hf. }
     rewrite A3, B3, C3, B2, C2, B1, C1. repeat split; auto. intros ->. rewrite D3. reflexivity.
+  - (* map literal *)
+    norm_app Hr. destruct Hat as [_ Hps].
+    set (st0 := push_wss false st).
+    set (r2 := mk T_RCURLY :: wsl w2 ++ rest0) in *.
+    assert (Hh : is_ws (look0 (render_pairs render pairs wz ++ r2)) = false) by (apply render_pairs_head_not_ws; reflexivity).
+    assert (Hr0 : rest st0 = mk T_LCURLY :: wsl w1 ++ (render_pairs render pairs wz ++ r2)) by exact Hr.
+    destruct (open_spec st0 _ _ _ Hr0 Hh) as (A1 & B1 & C1).
+    set (st1 := advance_if_ws (advance st0)) in *.
+    assert (W1 : is_wss st1 = false) by (apply (is_wss_pushed st _ false B1)).
+    destruct (consume_pairs_spec E (atoms_ok E) pairs IHpairs st1 wz r2 A1 W1) as (A2 & B2 & C2); auto.
+    set (st2 := consume_pairs (consume E) pairs st1) in *.
+    destruct (pop_wss_spec (advance_wss st2) w2 rest0 false (wss st)) as (A4 & B4 & C4 & D4 & P4).
+    { simpl. rewrite A2. reflexivity. }
+    { simpl. rewrite B2, B1. reflexivity. }
+    { intro W. specialize (Ht W). simpl in Ht. destruct w2; [discriminate|reflexivity]. }
+    { exact Hf. }
+    rewrite A4, B4, C4. simpl. rewrite C2, C1. repeat split; auto.
+    + intro W. rewrite (D4 W). simpl. unfold cur. rewrite A2. reflexivity.
+    + intro Q. apply P4; auto. intros ->. simpl. rewrite A2. reflexivity.
 Qed.
 
 (* ================================================================ *)
@@ -944,18 +1077,20 @@ Fixpoint wl (l : lexp) : Prop :=
   | LAssert e _ _ _ _ => wl e /\ rank_primary <= toprank e
   | LCall _ _ args _ _ => allP wl args
   | LArr _ elems _ _ => allP wl elems
+  | LMap _ pairs _ _ => allP (fun p => wl (snd p)) pairs
   end.
 
 Lemma Lay_wl n l : Lay n l -> wl l /\ n <= toprank l.
 Proof.
   induction 1 as [n l _ [IH1 IH2]|o l ws r _ [IHl1 IHl2] _ [IHr1 IHr2]|o e _ [IH1 IH2]|a ws|w1 e w2 _ [IH1 IH2]
                  |e w1 i w2 _ [IHe1 IHe2] _ [IHi1 IHi2]|e w1 s w2 t w3 _ [IHe1 IHe2] _ IHs _ IHt|e k w _ [IH1 IH2]|e w1 t w2 w3 _ [IH1 IH2]
-                 |w1 f args wz w2 _ IHc|w1 args wz w2 _ IHc];
+                 |w1 f args wz w2 _ IHc|w1 args wz w2 _ IHc|w1 pairs wz w2 _ IHc];
     simpl; auto.
   - split; [assumption|lia].
   - repeat split; auto.
     + destruct s as [x|]; [|exact I]. exact (proj1 (IHs x eq_refl)).
     + destruct t as [x|]; [|exact I]. exact (proj1 (IHt x eq_refl)).
+  - split; [|apply Nat.le_refl]. apply allP_In. intros a Ha. exact (proj1 (IHc a Ha)).
   - split; [|apply Nat.le_refl]. apply allP_In. intros a Ha. exact (proj1 (IHc a Ha)).
   - split; [|apply Nat.le_refl]. apply allP_In. intros a Ha. exact (proj1 (IHc a Ha)).
 Qed.
@@ -1006,6 +1141,8 @@ Fixpoint need (l : lexp) : nat :=
       Nat.max (S (List.length args)) (max_over (fun a => S (spine a + Nat.max 1 (need a))) args)
   | LArr _ elems _ _ =>
       Nat.max (S (S (List.length elems))) (max_over (fun a => S (spine a + Nat.max 1 (need a))) elems)
+  | LMap _ pairs _ _ =>
+      Nat.max (S (S (List.length pairs))) (max_over (fun p => S (spine (snd p) + Nat.max 1 (need (snd p)))) pairs)
   end.
 
 (* the token after the expression lets a loop running at power p stop *)
@@ -1133,12 +1270,13 @@ Proof. intro Hr. unfold parse_prefix, cur_t, cur. rewrite Hr. reflexivity. Qed.
 Lemma first_tok_not_call E e :
   atoms_ok E e -> ttype (first_tok e) = T_IDENT -> func_of E (tlit (first_tok e)) = None.
 Proof.
-  induction e as [a ws|w1 e w2 IH|o e IH|o a ws b IHa IHb|e w1 i w2 IHe IHi|e w1 s w2 t w3 IHe IHs IHt|e k w IHe|e w1 t w2 w3 IHe|w1 f args wz w2 IHargs|w1 args wz w2 IHargs]
+  induction e as [a ws|w1 e w2 IH|o e IH|o a ws b IHa IHb|e w1 i w2 IHe IHi|e w1 s w2 t w3 IHe IHs IHt|e k w IHe|e w1 t w2 w3 IHe|w1 f args wz w2 IHargs|w1 args wz w2 IHargs|w1 pairs wz w2 IHpairs]
     using lexp_ind'; simpl; intros Ha Ht; try (apply IHe; tauto).
   - destruct a as [| |[]|n]; try discriminate Ht. simpl. apply Ha.
   - discriminate Ht.
   - destruct o; discriminate Ht.
   - apply IHa; tauto.
+  - discriminate Ht.
   - discriminate Ht.
   - discriminate Ht.
 Qed.
@@ -1166,9 +1304,9 @@ Lemma cur_t_first l st r : rest st = render l ++ r -> cur_t st = ttype (first_to
 Proof. intro H. destruct (render_first l) as [x Hx]. rewrite Hx in H. unfold cur_t, cur. rewrite H. reflexivity. Qed.
 
 Lemma first_not_colon l : ttype (first_tok l) <> T_COLON.
-Proof. destruct (first_tok_prefix l) as [H|[H|[H|[H|[H|[H|[H|[H|H]]]]]]]]; rewrite H; discriminate. Qed.
+Proof. destruct (first_tok_prefix l) as [H|[H|[H|[H|[H|[H|[H|[H|[H|H]]]]]]]]]; rewrite H; discriminate. Qed.
 Lemma first_not_rbracket l : ttype (first_tok l) <> T_RBRACKET.
-Proof. destruct (first_tok_prefix l) as [H|[H|[H|[H|[H|[H|[H|[H|H]]]]]]]]; rewrite H; discriminate. Qed.
+Proof. destruct (first_tok_prefix l) as [H|[H|[H|[H|[H|[H|[H|[H|[H|H]]]]]]]]]; rewrite H; discriminate. Qed.
 
 (* parseType on the tokens of a type, in the free context of an assertion's parentheses *)
 Lemma parse_type_spec t : forall st w rest0 f,
@@ -1268,7 +1406,7 @@ Lemma expr_list_step pe f acc st : prefix_tt (cur_t st) ->
   end.
 Proof.
   intro H. cbn [parse_expr_list]. unfold is_at_eol.
-  destruct H as [H|[H|[H|[H|[H|[H|[H|[H|H]]]]]]]]; rewrite H; reflexivity.
+  destruct H as [H|[H|[H|[H|[H|[H|[H|[H|[H|H]]]]]]]]]; rewrite H; reflexivity.
 Qed.
 
 (* the token after an argument ends a whitespace-sensitive expression *)
@@ -1354,7 +1492,7 @@ Proof.
   destruct t as [|a t].
   - rewrite render_seq_nil. simpl. repeat split; discriminate.
   - rewrite render_seq_cons, <- app_assoc. destruct (render_first a) as [x ->]. simpl.
-    destruct (first_tok_prefix a) as [H|[H|[H|[H|[H|[H|[H|[H|H]]]]]]]]; rewrite H; repeat split; discriminate.
+    destruct (first_tok_prefix a) as [H|[H|[H|[H|[H|[H|[H|[H|[H|H]]]]]]]]]; rewrite H; repeat split; discriminate.
 Qed.
 
 Lemma array_elems_step E pe f acc st : prefix_tt (cur_t st) ->
@@ -1374,7 +1512,7 @@ Lemma array_elems_step E pe f acc st : prefix_tt (cur_t st) ->
   end.
 Proof.
   intro H. cbn [parse_array_elems].
-  destruct H as [H|[H|[H|[H|[H|[H|[H|[H|H]]]]]]]]; rewrite H; reflexivity.
+  destruct H as [H|[H|[H|[H|[H|[H|[H|[H|[H|H]]]]]]]]]; rewrite H; reflexivity.
 Qed.
 
 Lemma seq_stop_rbracket (t : list lexp) wz r :
@@ -1419,6 +1557,95 @@ Proof.
     + exact Hka.
 Qed.
 
+(* ---- map literals ---- *)
+Lemma prefix_map E pe f st r :
+  rest st = mk T_LCURLY :: r -> parse_prefix E pe f st = parse_map_literal E pe f st.
+Proof. intro Hr. unfold parse_prefix, parse_literal, cur_t, cur. rewrite Hr. reflexivity. Qed.
+
+Lemma has_key_keys k acc : has_key k acc = existsb (fun k' => str_eqb k' k) (map fst acc).
+Proof. induction acc as [|[k' t] acc IH]; simpl; [reflexivity|]. rewrite IH. reflexivity. Qed.
+
+Lemma map_pairs_step E pe f acc st k r :
+  rest st = ident_tok k :: mk T_COLON :: r -> has_key k acc = false ->
+  parse_map_pairs E pe (S f) acc st =
+  match parse_expr_wss pe (advance (advance st)) with
+  | None => None
+  | Some (n, st4) =>
+      match n with
+      | None => ret None st4
+      | Some t =>
+          if tyerr E TS_map_value_none t (here (advance (advance st)))
+          then ret None (add_err_at (E_type TS_map_value_none) (here (advance (advance st))) st4) else
+          match parse_multiline_ws (S f) st4 with
+          | None => None
+          | Some st5 => parse_map_pairs E pe f ((k, t) :: acc) st5
+          end
+      end
+  end.
+Proof.
+  intros Hr Hk. cbn [parse_map_pairs].
+  assert (C : cur st = ident_tok k) by (unfold cur; rewrite Hr; reflexivity).
+  unfold cur_t. rewrite C. change (as_ident (ident_tok k)) with (ident_tok k). cbn [ident_tok ttype tlit]. rewrite Hk.
+  destruct (advance_tok st (ident_tok k) false (mk T_COLON :: r) Hr) as (A & _); auto.
+  unfold assert_token, cur_t, cur. rewrite A. reflexivity.
+Qed.
+
+Lemma pairs_head_nonblank (t : list (str * bool * lexp)) wz r :
+  nonblank (ttype (look0 (render_pairs render t wz ++ mk T_RCURLY :: r))).
+Proof.
+  destruct t as [|[[k wc] v] t]; [rewrite render_pairs_nil|rewrite render_pairs_cons]; simpl; repeat split; discriminate.
+Qed.
+
+Lemma pairs_stop (t : list (str * bool * lexp)) wz r :
+  stop_tok true lowestPrec (look0 (wsl (seq_flag t wz) ++ render_pairs render t wz ++ mk T_RCURLY :: r)).
+Proof.
+  destruct t as [|[[k wc] v] t]; [destruct wz|]; simpl.
+  - left. split; reflexivity.
+  - rewrite ?render_pairs_nil. right; right. change (precedences T_RCURLY <= lowestPrec). rewrite rcurly_lowest. apply Nat.le_refl.
+  - left. split; reflexivity.
+Qed.
+
+(* parseMapPairs on a whitespace-separated list of key:value pairs with tight values and distinct keys *)
+Lemma map_pairs_spec E : no_tyerr E -> forall k ps, Forall (fun p => pratt_stmt E (snd p)) ps -> forall f st wz r acc,
+  allP (fun p => wl (snd p)) ps -> pairs_ok E (atoms_ok E) wz ps ->
+  keys_fresh (map fst acc) (map pair_key ps) ->
+  forallb (fun p => layout_ok (snd p) && tight_ok (snd p)) ps = true ->
+  rest st = render_pairs render ps wz ++ mk T_RCURLY :: r -> is_wss st = false ->
+  S (List.length ps) < f ->
+  max_over (fun p => S (spine (snd p) + Nat.max 1 (need (snd p)))) ps <= k ->
+  parse_map_pairs E (parse_expr E k) f acc st =
+    Some (Some (rev acc ++ map (fun p => match p with (k, _, v) => (k, tree_of v) end) ps), consume_pairs (consume E) ps st).
+Proof.
+  intros NT k ps HF. induction HF as [|[[key wc] v] t Hv Ht IH]; intros f st wz r acc Hwl Hat Hfr Hl Hr Hs Hf Hk.
+  - rewrite render_pairs_nil in Hr. simpl in Hr. destruct f as [|f]; [simpl in Hf; lia|].
+    rewrite consume_pairs_nil. cbn [parse_map_pairs]. unfold cur_t, cur. rewrite Hr. simpl.
+    rewrite app_nil_r. reflexivity.
+  - destruct f as [|f]; [simpl in Hf; lia|].
+    rewrite render_pairs_cons in Hr. norm_app Hr. cbn [snd] in Hv.
+    destruct Hwl as [Hwa Hwt]. destruct Hat as [[Haa Hga] Hat]. cbn [snd] in Hwa, Haa, Hga.
+    simpl in Hfr. destruct Hfr as [Hfk Hfr].
+    simpl in Hl. apply andb_true_iff in Hl as [Hla Hlt]. apply andb_true_iff in Hla as [Hla Hta].
+    rewrite max_over_cons in Hk. cbn [snd] in Hk. apply Nat.max_lub_iff in Hk as [Hka Hkt].
+    rewrite (map_pairs_step E _ f acc st key _ Hr) by (rewrite has_key_keys; exact Hfk).
+    set (rest1 := render_pairs render t wz ++ mk T_RCURLY :: r) in *.
+    assert (Hn : is_ws (look0 rest1) = false) by (apply render_pairs_head_not_ws; reflexivity).
+    destruct (pair_step E v (consume_spec E v) st key wc (seq_flag t wz) rest1 Hr Hs Hn Hla Hta Hga Haa) as (A0 & _ & A & B & C).
+    unfold parse_expr_wss.
+    rewrite (sub_expr_gen E v Hv (push_wss true (advance (advance st))) (wsl (seq_flag t wz) ++ rest1) k Hwa Haa Hla A0 (fun _ => Hta)).
+    + unfold ret. rewrite (tyerr_false E) by exact NT. rewrite consume_pairs_cons. cbn [snd].
+      rewrite (ml_skip_gen (S f) (pop_wss (consume E v (push_wss true (advance (advance st)))))).
+      * rewrite (IH f _ wz r ((key, tree_of v) :: acc)); auto.
+        -- simpl. rewrite <- app_assoc. reflexivity.
+        -- unfold is_wss. rewrite B. exact Hs.
+        -- simpl in Hf. lia.
+      * simpl in Hf. lia.
+      * unfold cur_t, cur. rewrite A. apply pairs_head_nonblank.
+    + intro W. discriminate W.
+    + intros F S. rewrite (Hga F S). exact Hn.
+    + apply pairs_stop.
+    + exact Hka.
+Qed.
+
 (* parseSlice after the colon *)
 Lemma parse_slice_spec E t : no_tyerr E -> optP (pratt_stmt E) t ->
   forall st w3 rest0 k tok left start,
@@ -1444,7 +1671,7 @@ Qed.
 Lemma pratt_general E : no_tyerr E -> forall l, pratt_stmt E l.
 Proof.
   intro NT.
-  induction l as [a ws|w1 e w2 IH|o e IH|o a ws b IHa IHb|e w1 i w2 IHe IHi|e w1 s w2 t w3 IHe IHs IHt|e k0 w IHe|e w1 t w2 w3 IHe|w1 f args wz w2 IHargs|w1 args wz w2 IHargs]
+  induction l as [a ws|w1 e w2 IH|o e IH|o a ws b IHa IHb|e w1 i w2 IHe IHi|e w1 s w2 t w3 IHe IHs IHt|e k0 w IHe|e w1 t w2 w3 IHe|w1 f args wz w2 IHargs|w1 args wz w2 IHargs|w1 pairs wz w2 IHpairs]
     using lexp_ind'; intros st rest0 p k Hwl Hat Hl Hr Ht Hf Hg Hstop Hp Hk.
   - (* atom *)
     simpl spine. simpl plus. rewrite parse_expr_S.
@@ -1748,6 +1975,28 @@ Proof.
     set (st2 := consume_args (consume E) args st1) in *.
     change (rev [] ++ map tree_of args) with (map tree_of args).
     cbv beta iota. unfold assert_token, cur_t, cur. rewrite A2. simpl. reflexivity.
+  - (* map literal *)
+    simpl spine. simpl plus. rewrite parse_expr_S.
+    simpl in Hr. norm_app Hr. rewrite (prefix_map E _ _ st _ Hr). unfold parse_map_literal. cbv zeta.
+    set (st0 := push_wss false st).
+    set (r2 := wsl w2 ++ rest0) in *.
+    assert (Hh : is_ws (look0 (render_pairs render pairs wz ++ mk T_RCURLY :: r2)) = false)
+      by (apply render_pairs_head_not_ws; reflexivity).
+    assert (Hr0 : rest st0 = mk T_LCURLY :: wsl w1 ++ (render_pairs render pairs wz ++ mk T_RCURLY :: r2)) by exact Hr.
+    destruct (open_spec st0 _ _ _ Hr0 Hh) as (A1 & B1 & C1).
+    simpl in Hwl, Hat, Hl. cbn [need] in Hk. destruct Hat as [Hfr Hps]. apply Nat.max_lub_iff in Hk as [Hk1 Hk2].
+    rewrite (ml_skip_gen k (advance st0)).
+    2:{ lia. }
+    2:{ unfold cur_t, cur. rewrite A1. apply pairs_head_nonblank. }
+    set (st1 := advance_if_ws (advance st0)) in *.
+    assert (W1 : is_wss st1 = false) by (apply (is_wss_pushed st _ false B1)).
+    assert (Hk1' : S (List.length pairs) < k) by lia.
+    rewrite (map_pairs_spec E NT k pairs IHpairs k st1 wz r2 [] Hwl Hps Hfr Hl A1 W1 Hk1' Hk2).
+    assert (HC : Forall (fun p => consume_stmt E (snd p)) pairs) by (apply Forall_forall; intros a _; apply consume_spec).
+    destruct (consume_pairs_spec E (atoms_ok E) pairs HC st1 wz (mk T_RCURLY :: r2) A1 W1) as (A2 & B2 & C2); auto.
+    set (st2 := consume_pairs (consume E) pairs st1) in *.
+    cbn [rev app].
+    cbv beta iota. unfold assert_token, cur_t, cur. rewrite A2. simpl. reflexivity.
 Qed.
 
 (* ================================================================ *)
@@ -1765,16 +2014,26 @@ Proof.
   - rewrite render_seq_cons, max_over_cons, !app_length. simpl List.length. lia.
 Qed.
 
+Lemma pairs_fuel ps wz : Forall (fun p => spine (snd p) + need (snd p) + 2 <= 2 * List.length (render (snd p))) ps ->
+  List.length ps <= List.length (render_pairs render ps wz) /\
+  max_over (fun p => S (spine (snd p) + Nat.max 1 (need (snd p)))) ps <= 2 * List.length (render_pairs render ps wz) + 2.
+Proof.
+  induction 1 as [|[[k wc] v] t Hv Ht [IH1 IH2]].
+  - rewrite render_pairs_nil. simpl. lia.
+  - rewrite render_pairs_cons, max_over_cons. cbn [snd] in *. simpl List.length. rewrite !app_length. simpl List.length. lia.
+Qed.
+
 (* enough fuel: the model's entry point runs with 2 * (number of tokens) + 10 *)
 Lemma fuel_bound l : spine l + need l + 2 <= 2 * List.length (render l).
 Proof.
-  induction l as [a ws|w1 e w2 IH|o e IH|o a ws b IHa IHb|e w1 i w2 IHe IHi|e w1 s w2 t w3 IHe IHs IHt|e k w IHe|e w1 t w2 w3 IHe|w1 f args wz w2 IHargs|w1 args wz w2 IHargs]
+  induction l as [a ws|w1 e w2 IH|o e IH|o a ws b IHa IHb|e w1 i w2 IHe IHi|e w1 s w2 t w3 IHe IHs IHt|e k w IHe|e w1 t w2 w3 IHe|w1 f args wz w2 IHargs|w1 args wz w2 IHargs|w1 pairs wz w2 IHpairs]
     using lexp_ind'; cbn [spine need render];
     try pose proof (ty_size_le t);
     repeat (rewrite app_length || (progress simpl List.length)); try lia.
   - destruct s as [x|], t as [y|]; simpl in IHs, IHt; simpl List.length; lia.
   - destruct (seq_fuel args wz IHargs) as [H1 H2]. lia.
   - destruct (seq_fuel args wz IHargs) as [H1 H2]. lia.
+  - destruct (pairs_fuel pairs wz IHpairs) as [H1 H2]. lia.
 Qed.
 
 (* The guard that excludes exactly the class on which parseSlice is defective:
@@ -1827,11 +2086,13 @@ Qed.
 (* the tree depends on the derivation only, not on its layout *)
 Lemma tree_of_erase l : tree_of l = stree (erase l).
 Proof.
-  induction l as [a ws|w1 e w2 IH|o e IH|o a ws b IHa IHb|e w1 i w2 IHe IHi|e w1 s w2 t w3 IHe IHs IHt|e k w IHe|e w1 t w2 w3 IHe|w1 f args wz w2 IHargs|w1 args wz w2 IHargs]
+  induction l as [a ws|w1 e w2 IH|o e IH|o a ws b IHa IHb|e w1 i w2 IHe IHi|e w1 s w2 t w3 IHe IHs IHt|e k w IHe|e w1 t w2 w3 IHe|w1 f args wz w2 IHargs|w1 args wz w2 IHargs|w1 pairs wz w2 IHpairs]
     using lexp_ind'; simpl; try congruence.
   - destruct s, t; simpl in *; congruence.
   - f_equal. f_equal. rewrite map_map. induction IHargs as [|a t Ha _ IH]; simpl; [reflexivity|]. rewrite Ha, IH. reflexivity.
   - f_equal. rewrite map_map. induction IHargs as [|a t Ha _ IH]; simpl; [reflexivity|]. rewrite Ha, IH. reflexivity.
+  - f_equal. rewrite map_map. induction IHpairs as [|[[k wc] v] t Hv _ IH]; simpl; [reflexivity|].
+    simpl in Hv. rewrite Hv, IH. reflexivity.
 Qed.
 
 Theorem layout_irrelevant E l1 l2 st1 st2 r1 r2 fuel1 fuel2 :
